@@ -326,7 +326,7 @@ var targets = []*target{
 				conn: assemble(safe, names, srv, openclosepb.WrapApi, func() (adder, traits.OpenCloseApiServer) { r := openclosepb.NewApiRouter(); return r, r },
 					func(cc grpc.ClientConnInterface) any { return traits.NewOpenCloseApiClient(cc) })}
 		}},
-	{ID: "openclosepb.ModelServer/empty", Pkg: "openclosepb", File: "model_server.go", Type: "ModelServer",
+	{ID: "openclosepb.ModelServer-empty", Pkg: "openclosepb", File: "model_server.go", Type: "ModelServer",
 		Service: "smartcore.traits.OpenCloseApi", Update: "UpdatePositions",
 		Note: "openclosepb.NewModel() with its default options: no initial positions",
 		build: func(safe bool, names []string) *stack {
